@@ -118,14 +118,14 @@ def rule_A8(ctx):
         raise AnalysisError('anchor vanished: BitStore.copy')
     for x in returns(c2):
         v = x.value
-        if isinstance(v, ast.IfExp) and ast.unparse(v.test) == 'self.immutable' and ast.unparse(v.body) == 'self' \
-                and ast.unparse(v.orelse) == 'self._copy()':
+        if isinstance(v, ast.IfExp) and ast.unparse(G.pos_if(v)[0]) == 'self.immutable' and ast.unparse(G.pos_if(v)[1]) == 'self' \
+                and ast.unparse(G.pos_if(v)[2]) == 'self._copy()':
             r.ok(x)
         elif isinstance(v, ast.Call) and ast.unparse(v.func) == 'self._copy':
             r.ok(x)
         elif ast.unparse(v) == 'self':
             # allowed only under an enclosing `if self.immutable`
-            guarded = any(isinstance(p, ast.If) and ast.unparse(p.test) == 'self.immutable' and any(x is q for b in p.body for q in ast.walk(b))
+            guarded = any(isinstance(p, ast.If) and ast.unparse(G.pos_if(p)[0]) == 'self.immutable' and any(x is q for b in G.pos_if(p)[1] for q in ast.walk(b))
                           for p in own_walk(c2.node))
             if guarded:
                 r.ok(x)
